@@ -234,15 +234,18 @@ where
 
     fn next(&mut self) -> Option<Self::Item> {
         if !self.c.next_called {
-            if let Bound::Included(s) = self.bounds.start_bound() {
-                let exists = self.c.seek(*s);
-                // if the start key is not there,
-                // skip to the key after where it should be.
-                if !exists {
-                    if let Some(data) = self.c.current() {
-                        if data.key() < *s {
-                            self.c.next();
-                        }
+            let (start, included) = match self.bounds.start_bound() {
+                Bound::Included(s) => (Some(*s), true),
+                Bound::Excluded(s) => (Some(*s), false),
+                Bound::Unbounded => (None, true),
+            };
+            if let Some(s) = start {
+                self.c.seek(s);
+                // the cursor may be sitting just before where the start key should be,
+                // or on the start key itself when that is excluded: skip those.
+                if let Some(data) = self.c.current() {
+                    if data.key() < s || (!included && data.key() == s) {
+                        self.c.next();
                     }
                 }
             }
